@@ -434,102 +434,195 @@ def check_dirs(ctx):
 
 
 def check_walker(ctx):
+    """Files of a policy directory: top level only, plain sorted order,
+    dot-files skipped, each loaded as join(directory, name) - read off the
+    walker's paths (comprehensions unfolded, helpers inlined)."""
+    from ..dte import inline_helpers
+    from ..pathutil import (contents, elem_source, resolve_elem, strip_order,
+                            deref)
     prog = ctx.prog
     r = roles(ctx)
     w = r.walker
     W = lambda n: ctx.where(w.module, n)
-    path_p = w.params[0] if w.is_static else w.params[1]
-    func_p = w.params[1] if w.is_static else w.params[2]
-    src = ' '.join(U(s) for s in w.node.body)
-    loops = [n for n in walk_no_nested(w.node) if isinstance(n, ast.For)]
-    if not loops:
-        raise AnalysisError('directory walker has no loop')
-    loop = loops[-1]
-    # top level only
-    walk_calls = [n for n in ast.walk(w.node) if isinstance(n, ast.Call)
-                  and prog.resolve(w.module, n.func) == 'ext:os.walk']
-    listdir = [n for n in ast.walk(w.node) if isinstance(n, ast.Call)
-               and prog.resolve(w.module, n.func) in ('ext:os.listdir',
-                                                      'ext:os.scandir')]
-    top = False
-    detail = 'cannot see how the directory is listed'
-    for wc in walk_calls:
-        # next(os.walk(path))[2]
-        ok = any(isinstance(n, ast.Subscript) and is_const(n.slice, 2)
-                 and isinstance(n.value, ast.Call) and U(n.value.func) ==
-                 'next' and n.value.args and n.value.args[0] is wc
-                 for n in ast.walk(w.node))
-        top = ok
-        detail = 'lists the files of the top level only (next(os.walk))' \
-            if ok else 'os.walk is iterated beyond the top level: ' \
-            'sub-directories are descended into'
-    if not walk_calls and listdir:
-        filt = any(isinstance(n, ast.Call) and prog.resolve(
-            w.module, n.func) in ('ext:os.path.isfile',)
-            for n in ast.walk(w.node))
-        top = filt
-        detail = 'lists the directory and keeps files only' if filt else \
-            'directory entries are not filtered to files: sub-directories ' \
-            'would be loaded as policy files'
-    ctx.ob('C09.WALK', top, W(w.node), w.qual, 'directory listing', detail)
-    # sorted
-    sorted_ok = False
-    it = loop.iter
-    names = {n.id for n in ast.walk(it) if isinstance(n, ast.Name)}
-    for n in ast.walk(w.node):
-        if isinstance(n, ast.Call) and method_call(n, 'sort') and U(
-                method_call(n)[0]) in names and not n.args and \
-                not n.keywords and n.lineno < loop.lineno:
-            sorted_ok = True
-        if isinstance(n, ast.Call) and U(n.func) == 'sorted' and not any(
-                k.arg in ('reverse', 'key') for k in n.keywords):
-            if any(n is x for x in ast.walk(it)) or any(
-                    isinstance(a, ast.Assign) and a.value is n and U(
-                        a.targets[0]) in names for a in ast.walk(w.node)):
-                sorted_ok = True
-    ctx.ob('C09.WALK', sorted_ok, W(loop), w.qual,
-           'iteration ' + U(it)[:80],
-           'file names are sorted (plain lexicographic order) before they '
-           'are applied' if sorted_ok else
-           'files of a policy directory are not applied in plain '
-           'lexicographic name order (no sort, or a sort with key=/'
-           'reverse=)')
-    # dot-files filtered
-    dot = False
-    for n in ast.walk(w.node):
-        if isinstance(n, ast.Call) and method_call(n, 'startswith') and \
-                n.args and is_const(n.args[0], '.'):
-            # must be negated and govern the loop element
-            dot = True
-            pm = parent_map(w.node)
-            par = pm.get(n)
-            neg = isinstance(par, ast.UnaryOp) and isinstance(par.op,
-                                                              ast.Not)
-            if not neg:
-                # `if p.startswith('.'): continue`
-                anc = par
-                neg = isinstance(anc, ast.If) and any(
-                    isinstance(s, ast.Continue) for s in anc.body)
-            dot = neg
-    ctx.ob('C09.WALK', dot, W(loop), w.qual, 'dot-file filter',
-           'names starting with a dot are skipped' if dot else
-           'dot-files in a policy directory are applied as policy files')
-    # loader called with join(path, name)
-    calls = [n for n in ast.walk(loop) if isinstance(n, ast.Call)
-             and U(n.func) == func_p]
-    okc = False
-    for c in calls:
-        a0 = c.args[0] if c.args else None
-        if isinstance(a0, ast.Call) and prog.resolve(
+    off = 0 if (w.cls is None or w.is_static) else 1
+    if len(w.params) < off + 2 or w.node.args.vararg is None:
+        raise AnalysisError('directory walker signature changed')
+    path_p, func_p = w.params[off], w.params[off + 1]
+    va = w.node.args.vararg.arg
+    t = Table(prog, w, inline=inline_helpers(
+        prog, modules={POLICY}, exclude={r.loader.qual, r.load_rules.qual}),
+        comps=True, handler_paths=False, max_depth=4)
+    en = t.en
+    F = W(w.node).split(':')[0]
+    n_calls = 0
+    res = {'top': None, 'sorted': None, 'dot': None, 'call': None}
+    where = {}
+    skipped = None
+
+    def note(key, ok, detail, line):
+        # one bad path is enough; a good verdict needs every path good
+        cur = res[key]
+        if cur is None or (cur[0] and not ok):
+            res[key] = (ok, detail)
+            where[key] = line
+
+    def is_path(e):
+        return isinstance(e, ast.Name) and e.id == path_p
+
+    def listing_of(p, name):
+        """(kind, listing expr, sorted?, why) following NAME back."""
+        cont, opaque = contents(p)
+        sorted_ok, bad_order = False, None
+        e = name
+        for _ in range(8):
+            e0 = resolve_elem(en, p, e)
+            src = elem_source(en, e0) if isinstance(e0, ast.Name) else None
+            if src is None:
+                return 'unknown', e0, sorted_ok, bad_order
+            inner, wr = strip_order(deref(en, src))
+            for x in wr:
+                if x.func.id == 'sorted':
+                    if any(k.arg in ('key', 'reverse') for k in x.keywords):
+                        bad_order = 'sorted with key=/reverse='
+                    else:
+                        sorted_ok = True
+                elif x.func.id == 'reversed':
+                    bad_order = 'reversed'
+            inner = deref(en, inner) if isinstance(inner, ast.Name) and \
+                not inner.id.startswith('SYM_m') else inner
+            raw = strip_order(src)[0]
+            # X.sort() before the loop
+            for ev in p.events:
+                if ev.kind == 'call' and method_call(ev.node, 'sort') and \
+                        U(method_call(ev.node)[0]) in (U(raw), U(inner)):
+                    if ev.node.args or any(
+                            k.arg in ('key', 'reverse')
+                            for k in ev.node.keywords):
+                        bad_order = 'sort with key=/reverse='
+                    else:
+                        sorted_ok = True
+            if isinstance(inner, ast.Name) and inner.id.startswith('SYM_m'):
+                items = cont.get(inner.id, [])
+                if len(items) == 1 and not isinstance(items[0], tuple):
+                    e = items[0]
+                    continue
+                return 'unknown', inner, sorted_ok, bad_order
+            x = en.expand(inner)
+            if isinstance(x, ast.Subscript) and is_const(x.slice, 2) and \
+                    isinstance(x.value, ast.Call) and U(
+                        x.value.func) == 'next' and x.value.args and \
+                    isinstance(x.value.args[0], ast.Call) and prog.resolve(
+                        w.module, x.value.args[0].func) == 'ext:os.walk' \
+                    and x.value.args[0].args and is_path(
+                        x.value.args[0].args[0]):
+                return 'top', x, sorted_ok, bad_order
+            if isinstance(x, ast.Call) and prog.resolve(
+                    w.module, x.func) in ('ext:os.listdir',) and x.args \
+                    and is_path(x.args[0]):
+                return 'listdir', x, sorted_ok, bad_order
+            if any(isinstance(n, ast.Call) and prog.resolve(
+                    w.module, n.func) == 'ext:os.walk'
+                    for n in ast.walk(x)):
+                return 'walk', x, sorted_ok, bad_order
+            return 'unknown', x, sorted_ok, bad_order
+        return 'unknown', e, sorted_ok, bad_order
+
+    for p in t.paths:
+        calls = [ev for ev in p.events if ev.kind == 'call' and isinstance(
+            ev.node.func, ast.Name) and ev.node.func.id == func_p]
+        dotc = []
+        for c in p.conds:
+            if c.kind != 'test':
+                continue
+            ce = en.expand(c.expr)
+            if isinstance(ce, ast.Call) and method_call(ce, 'startswith') \
+                    and ce.args and is_const(ce.args[0], '.'):
+                dotc.append(c)
+        if not calls:
+            loops = [c for c in p.conds if c.kind == 'loop' and c.pol]
+            if loops and p.outcome.kind != 'raise' and dotc and all(
+                    not c.pol for c in dotc) and skipped is None:
+                skipped = p
+            continue
+        for lc in calls:
+            n_calls += 1
+            a = lc.node.args
+            a0 = en.expand(a[0]) if a else None
+            okc = isinstance(a0, ast.Call) and prog.resolve(
                 w.module, a0.func) == 'ext:os.path.join' and len(
-                    a0.args) == 2 and U(a0.args[0]) == path_p and U(
-                        a0.args[1]) == U(loop.target):
-            okc = len(c.args) == 2 and isinstance(c.args[1], ast.Starred)
-    ctx.ob('C09.WALK', okc, W(loop), w.qual, 'loader call',
-           'each file is loaded as join(directory, name) with the '
-           'forwarded arguments' if okc else
-           'the walker does not call the loader with join(directory, name) '
-           'and the forwarded arguments')
+                    a0.args) == 2 and is_path(a0.args[0]) and len(a) == 2 \
+                and isinstance(a[1], ast.Starred) and U(a[1].value) == va \
+                and not lc.node.keywords
+            note('call', bool(okc), 'each file is loaded as join(directory, '
+                 'name) with the forwarded arguments' if okc else
+                 'the walker does not call the loader with join(directory, '
+                 'name) and the forwarded arguments (%s)' % U(lc.node)[:80],
+                 lc.line)
+            if not okc:
+                continue
+            raw_a0 = a[0]
+            name = a0.args[1]
+            # the unexpanded name keeps the element symbol
+            raw = deref(en, raw_a0)
+            if isinstance(raw, ast.Call) and len(raw.args) == 2:
+                name = raw.args[1]
+            kind, lst, sorted_ok, bad_order = listing_of(p, name)
+            if kind == 'top':
+                note('top', True, 'lists the files of the top level only '
+                     '(next(os.walk))', lc.line)
+            elif kind == 'listdir':
+                filt = any(c.kind == 'test' and c.pol and isinstance(
+                    en.expand(c.expr), ast.Call) and prog.resolve(
+                        w.module, en.expand(c.expr).func) ==
+                    'ext:os.path.isfile' for c in p.conds)
+                note('top', filt, 'lists the directory and keeps files only'
+                     if filt else 'directory entries are not filtered to '
+                     'files: sub-directories would be loaded as policy files',
+                     lc.line)
+            elif kind == 'walk':
+                note('top', False, 'os.walk is iterated beyond the top '
+                     'level: sub-directories are descended into', lc.line)
+            else:
+                note('top', False, 'cannot see how the directory is listed '
+                     '(names come from %s)' % U(lst)[:60], lc.line)
+            ok_sorted = sorted_ok and bad_order is None
+            note('sorted', ok_sorted, 'file names are sorted (plain '
+                 'lexicographic order) before they are applied' if ok_sorted
+                 else 'files of a policy directory are not applied in plain '
+                 'lexicographic name order (%s)' % (
+                     bad_order or 'no sort'), lc.line)
+            e0 = resolve_elem(en, p, name)
+            ok_dot = False
+            for c in dotc:
+                ce = en.expand(c.expr)
+                recv = method_call(ce)[0]
+                rr = resolve_elem(en, p, recv)
+                same = U(rr) == U(e0) or U(recv) == U(name)
+                if not same:
+                    # the filter ran on the listing the name was drawn from
+                    k2, l2, _s, _b = listing_of(p, recv)
+                    same = k2 == kind and U(l2) == U(lst)
+                if same and not c.pol:
+                    ok_dot = True
+            note('dot', ok_dot, 'names starting with a dot are skipped'
+                 if ok_dot else 'dot-files in a policy directory are applied '
+                 'as policy files', lc.line)
+    ctx.count(len(t.paths))
+    ctx.floor('C09.WALK', n_calls, 1, 'loader calls in the walker')
+    for key, construct in (('top', 'directory listing'),
+                           ('sorted', 'iteration order'),
+                           ('dot', 'dot-file filter'),
+                           ('call', 'loader call')):
+        if res[key] is None:
+            res[key] = (False, 'not established on any path')
+        ok, detail = res[key]
+        ctx.ob('C09.WALK', ok, '%s:%d' % (F, where[key]) if key in where
+               else W(w.node), w.qual, construct, detail)
+    ctx.ob('C09.WALK', skipped is None, '%s:%d' % (F, skipped.outcome.line)
+           if skipped else W(w.node), w.qual, 'every listed file is applied',
+           'no listed, non-hidden file is left out' if skipped is None else
+           'a file of the directory that is not hidden can be left out '
+           '(path: %s)' % skipped.cond_text()[-200:])
 
 
 def check_skip(ctx):
@@ -589,12 +682,14 @@ def check_opts(ctx):
 def check_parse(ctx):
     prog = ctx.prog
     f = prog.func(POLICY + '.parse_file_contents')
-    t = Table(prog, f)
+    from ..dte import inline_helpers
+    t = Table(prog, f, inline=inline_helpers(prog, modules={POLICY},
+                                             classes=False))
     W = ctx.where(f.module, f.node)
     data_p = f.params[0]
     json_first = yaml_fallback = reraises = empty = False
     for p in t.paths:
-        calls = [(e.kind, prog.resolve(f.module, e.node.func))
+        calls = [(e.kind, prog.resolve(t.module_of(e.frame), e.node.func))
                  for e in p.events if e.kind in ('call', 'maycall')]
         excs = [str(c.expr.value) for c in p.conds if c.kind == 'exc']
         names = [c for _, c in calls]
